@@ -196,9 +196,8 @@ impl TlsClientPeer {
                 }
                 return out;
             }
-        }
-        {
-            let mut buf = [0u8; 4096];
+            // take the decrypted bytes out as they arrive (rustls bounds its plaintext buffer)
+            let mut buf = [0u8; 16_384];
             loop {
                 match self.client.reader().read(&mut buf) {
                     Ok(0) => break,
